@@ -261,10 +261,27 @@ type world struct {
 	links []ipld.Link
 }
 
+// block i of the line protocol.  Blocks are identified by their full CID: link numbers 6k+5 are the SAME
+// BYTES and the same sha2-256 multihash as link 6k+4, under another CID (CIDv1/raw instead of the
+// CIDv0 of blocks.NewBlock).  For the tracker (and the model, which sees two different numbers) they are
+// two different blocks; a tracker that identified blocks by multihash would withhold one of them
+// (seeded change C20-r6a).
+func mkBlock(i int) blocks.Block {
+	if i%6 == 5 {
+		prev := blocks.NewBlock([]byte(fmt.Sprintf("verif linktrack block %d", i-1)))
+		b, err := blocks.NewBlockWithCid(prev.RawData(), cid.NewCidV1(cid.Raw, prev.Cid().Hash()))
+		if err != nil {
+			panic(err)
+		}
+		return b
+	}
+	return blocks.NewBlock([]byte(fmt.Sprintf("verif linktrack block %d", i)))
+}
+
 func newWorld(n int) *world {
 	w := &world{}
 	for i := 0; i < n; i++ {
-		b := blocks.NewBlock([]byte(fmt.Sprintf("verif linktrack block %d", i)))
+		b := mkBlock(i)
 		w.blks = append(w.blks, b)
 		w.links = append(w.links, cidlink.Link{Cid: b.Cid()})
 	}
@@ -273,8 +290,7 @@ func newWorld(n int) *world {
 
 func (w *world) link(i int) (ipld.Link, blocks.Block) {
 	for i >= len(w.links) {
-		n := len(w.links)
-		b := blocks.NewBlock([]byte(fmt.Sprintf("verif linktrack block %d", n)))
+		b := mkBlock(len(w.links))
 		w.blks = append(w.blks, b)
 		w.links = append(w.links, cidlink.Link{Cid: b.Cid()})
 	}
